@@ -329,7 +329,7 @@ variable [DecidableEq α]
     `Y` through `X`:  `X + D · (X − Y)/|X − Y|` -/
 theorem beyond_scalar (pos fromPt : Vec3 α) (dist h rho : α) (hh : h ≠ 0) (hrho : rho ≠ 0) :
     beyond pos (beyondScalar dist) fromPt h rho = pos.add ((pos.sub fromPt).smul (dist / rho)) := by
-  simp only [beyond, beyondScalar, gen_beyond_scalar, Vec3.ofTriple, azimuthOf, altitudeOf, if_neg hh, if_neg hrho]
+  simp only [beyond, beyondScalar, gen_beyond_scalar, Vec3.ofTriple, azimuthOf_eq, altitudeOf_eq, if_neg hh, if_neg hrho]
   ext <;> unfold_frames <;> field_simp <;> ring
 example : (5 : Rat) * 5 = 3 * 3 + 4 * 4 ∧ (13 : Rat) * 13 = 5 * 5 + 12 * 12 := by norm_num
 
